@@ -2,7 +2,7 @@
   Model driver for C17 (line protocol, see tools/props/c17.py).  Imports Model only.
 
   run mode=<c|d|t> k=<0|1> f=<0|1> c=<0|1> i=<0|1> sync=<0|1> root=<0|1> plan=<k:E<errno>,k:S<count>,...|-> sig=<k|->
-      move=<k>s|<k>d|-  crash=<k|->  files=<file>|<file>...
+      move=<k>s|<k>d|-  crash=<k|->  [closeout=1: the final close of standard output fails]  files=<file>|<file>...
   file = size:skip:gid:outreg:dstexists:fin:ops     ops = dot separated  R<n> W<n> Z<n> (sparse write) F<n> T I0 (init ok) I1 (init error)
 
   Every event carries " B1" / " B0": were the hooked signals blocked (signals_block_count > 0) at that call.
@@ -157,7 +157,9 @@ def doRun (ws : List String) : Option String := do
         let tr := ";".intercalate ((s.trace.reverse.zip fl.reverse).map fun (e, b) => renderEvent e ++ (if b then " B1" else " B0"))
         go rest s.k s.exitSt s.userAbort (s.pc != .done) ((tr ++ "#" ++ renderFs s) :: acc)
   let (outs, exitSt, abort, crashed) := go files 0 0 false false []
-  let ex := if crashed then "crash" else if abort then "sig" else toString exitSt
+  -- main(): signals_exit() re-raises a caught signal; otherwise tuklib_exit() closes standard output
+  let closeFails := (kv ws "closeout") == some "1"
+  let ex := if crashed then "crash" else if abort then "sig" else toString (tuklibExit exitSt closeFails)
   some (" | ".intercalate outs ++ " | exit=" ++ ex)
 
 def stepLine (_ : Unit) (ws : List String) : Unit × String :=
